@@ -10,7 +10,9 @@ import vlib
 RULE = ("cases = events (payload deliveries in any order incl. repeats and late ones, timer firings, transactions reaching only some "
         "validators, block relays, changing silent sets of at most f validators) executed one at a time on 4 (and 7) real consensus.Service "
         "instances on real ledgers; an adversarial phase following a TLC schedule of DBFT.tla plus a seeded random adversary, then an "
-        "all-honest fully-delivering phase, twice per run; distinct = distinct (run, kind, payload/validator) steps; every accepted "
+        "all-honest fully-delivering phase, twice per run; plus 'starved' runs in which every direct payload of one type (Commit / "
+        "PrepareResponse / PrepareRequest / ChangeView) is lost and has to come through recovery messages, with and without a silent "
+        "first primary; transactions given to some validators include ones expiring at the next block; distinct = distinct (run, kind, payload/validator) steps; every accepted "
         "block, every feed of a committed block to another ledger and every synchronous round is judged by TLC (DBFTTrace)")
 
 
@@ -90,6 +92,7 @@ def run(ctx):
         m.run_ext(ctx)
     ctx.assumptions.append("silent = late: a silent validator neither receives payloads nor has its timer fired while silent; payloads it sent earlier stay deliverable")
     ctx.assumptions.append("synchrony = every sent payload is delivered to everybody, lagging nodes get peers' blocks through their block queue, and the armed timer with the earliest virtual deadline fires when nothing else can happen; Progress bound = 6*N such rounds per block")
+    ctx.assumptions.append("Progress after an asynchronous period: a left-over height is exempt only while it is in dBFT 2.0's dead end (a validator locked by a Commit of view v and another validator already past v), established by TLC from the recorded sends; every other stall is a violation")
     ctx.assumptions.append("wall-clock is used only to detect a dead driver (exit 2), never for a verdict")
 
 
